@@ -22,6 +22,7 @@ FUNCTIONS = [
 STYLES = ["dotted", "dataclass", "class_arguments", "action_parser"]
 FIELDS = {
     "G1": [("c", "list", None), ("a", "int", 1), ("b", "optfloat", None)],
+    "G3": [("tags", "optlist", "NODEFAULT"), ("n", "int", 1), ("lit", "optdict", None)],  # Optional of a non-class hint, without default
     "G2": [("flag", "bool", False), ("name", "str", "n"), ("inner.k", "int", 3), ("inner.r", "optfloat", None)],
 }
 
@@ -29,7 +30,9 @@ FIELDS = {
 def _hint(kind):
     from typing import List, Optional
 
-    return {"list": List[int], "int": int, "optfloat": Optional[float], "bool": bool, "str": str}[kind]
+    from typing import Dict
+
+    return {"list": List[int], "int": int, "optfloat": Optional[float], "bool": bool, "str": str, "optlist": Optional[List[int]], "optdict": Optional[Dict[str, int]]}[kind]
 
 
 def _build(fl, style):
@@ -44,7 +47,7 @@ def _build(fl, style):
             kw = dict(type=_hint(kind))
             if default is None and kind == "list":
                 kw["required"] = True
-            else:
+            elif default != "NODEFAULT":
                 kw["default"] = default
             p.add_argument(f"--g.{name}", **kw)
     elif style == "dataclass":
@@ -57,7 +60,7 @@ def _build(fl, style):
             kw = dict(type=_hint(kind))
             if default is None and kind == "list":
                 kw["required"] = True
-            else:
+            elif default != "NODEFAULT":
                 kw["default"] = default
             inner.add_argument(f"--{name}", **kw)
         p.add_argument("--g", action=ActionParser(parser=inner))
@@ -257,7 +260,7 @@ def main(rep, tier):
     rep.stubs = [FORMAT_STUBS_NOTE, TEXT_STUB_NOTE + " (object harness only)"]
     rep.rule = ("one path per (value kind at each field, group given or not) x branch of the real code on the symbolic ints, the same input fed to four parsers; "
                 "non-trivial = the four outcomes (and dumps) were compared")
-    fls = ["G1"] if tier == "quick" else ["G1", "G2"]
+    fls = ["G1", "G3"] if tier == "quick" else ["G1", "G3", "G2"]
     rep.bounds = dict(field_lists={k: FIELDS[k] for k in fls}, styles=STYLES, value_kinds=VALUE_KINDS, text_channels=["argv-dotted", "argv-append", "argv-group-json", "cfg-string", "env"])
     rep.assumptions = [
         "the whole-group argv option (--g '{...}') is compared across the three styles that declare it (plain dotted arguments define no --g option, by design)",
